@@ -34,20 +34,27 @@ Definition outcome_of (r : result bool) : outcome :=
 
 Definition set_eqb (a b : list ident) : bool := subset a b && subset b a.
 
+Definition is_error (o : outcome) : bool :=
+  match o with OMissing | OViolated | OOther => true | _ => false end.
+
+(* With every declared name supplied the outcome kinds must agree exactly.  With a declared name absent several
+   errors can apply at once (missing parameter / violated constraint); which one is raised first is an order of
+   evaluation the property does not fix, so only "some error" is compared there. *)
+Definition outcome_match (names : list ident) (values : list (ident * Q)) (model impl : outcome) : bool :=
+  outcome_eqb model impl
+  || (negb (subset names (map fst values)) && is_error model && is_error impl).
+
 Definition check_corr (c : case) : bool :=
   match c with
   | CCase p drop names values out values2 out2 =>
       set_eqb (pnames (construct p)) names
-      && outcome_eqb (outcome_of (create_program p values drop)) out
-      && outcome_eqb (outcome_of (create_program p values2 drop)) out2
+      && outcome_match names values (outcome_of (create_program p values drop)) out
+      && outcome_match names values2 (outcome_of (create_program p values2 drop)) out2
   | CCrash => false
   end.
 
 (* ---- specification side ---- *)
 Definition env_of (values : list (ident * Q)) : env := fun x => assoc x values.
-
-Definition is_error (o : outcome) : bool :=
-  match o with OMissing | OViolated | OOther => true | _ => false end.
 
 (* clauses (a), (c), (d) for one assignment; `names` = the declared parameter names (as observed) *)
 Definition spec_one (p : pt) (drop : bool) (names : list ident) (values : list (ident * Q)) (out : outcome) : bool :=
